@@ -287,6 +287,11 @@ class PlanJoinTablesQuery:
         find_selects = self.planner.get_nested_selects_plan_fnc(self.planner.default_namespace, force=True)
         query_in.targets = query_traversal(query_in.targets, find_selects)
         query_traversal(query_in.where, find_selects)
+        # ... and in the other clauses of the outer query
+        if query_in.group_by is not None:
+            query_in.group_by = query_traversal(query_in.group_by, find_selects)
+        query_traversal(query_in.having, find_selects)
+        query_traversal(query_in.order_by, find_selects)
 
         # and in join conditions
         def plan_condition_selects(node):
